@@ -138,11 +138,24 @@ def histories():
         await L.op({"kind": "expunge", "box": "INBOX"}, w.op_expunge(a))
         await L.op({"kind": "noop", "box": "INBOX"}, w.op_noop(a))
 
+    async def h_delete_small(w, L, rnd):
+        """Short history around one DELETE of the most recently created mailbox
+        (it holds messages and flags): every kill point is explored."""
+        a = w.session()
+        await L.op({"kind": "append", "box": "INBOX"}, w.op_append(a, "INBOX"))
+        await L.op({"kind": "create", "box": "tmp"}, w.op_create(a, "tmp"))
+        for i in range(3):
+            await L.op({"kind": "append", "box": "tmp"}, w.op_append(a, "tmp", flags=[["\\Deleted"], ["\\Flagged", "kw1"], None][i]))
+        await L.op({"kind": "select", "box": "tmp"}, w.op_select(a, "tmp"))
+        await L.op({"kind": "unselect", "box": "tmp"}, w.op_unselect(a))
+        await L.op({"kind": "delete", "box": "tmp"}, w.op_delete(a, "tmp"))
+        await L.op({"kind": "noop"}, w.op_select(a, "INBOX"))
+
     async def h_startup_only(w, L, rnd):
         L.send({"kind": "noop"})
         L.done(w)
 
-    return {"messages": h_messages, "namespace": h_copy_move_namespace, "inboxpack": h_rename_inbox_pack_delivery, "startup": h_startup_only, "expunge": h_expunge_small}
+    return {"messages": h_messages, "namespace": h_copy_move_namespace, "inboxpack": h_rename_inbox_pack_delivery, "startup": h_startup_only, "expunge": h_expunge_small, "deletebox": h_delete_small}
 
 
 class OpLog:
@@ -378,6 +391,33 @@ def recover(d, ledger_path, result_path, deliver, dry_ledger=None):
         res["recovered"] = {k: (v if v is None else {"vv": v["vv"], "uidnext": v["uidnext"], "n": len(v["rows"])}) for k, v in state.items()}
         if model is not None:
             judge(model, inflight, state, bad, res, after)
+        # the recovered server must also be usable: a mailbox created now is new
+        # (nothing of a mailbox that was being removed when the process died may
+        # stick to it) and INBOX accepts mail
+        try:
+            if s.writer.closed or s.wire_error:
+                s = rig.session("R2")
+            pname = "zzrecovered"
+            rc = await s.cmd("CREATE " + pname)
+            if not rc.ok:
+                bad("create-after-recovery-failed", rc.brief())
+            else:
+                ra = await s.cmd(b"APPEND " + pname.encode() + b" {42+}\r\nFrom: p@q\r\nX-CID: recprobe\r\n\r\nprobe body\r\n")
+                rs = await s.cmd("SELECT " + pname)
+                rf2 = await s.cmd("UID FETCH 1:* (UID FLAGS BODY.PEEK[HEADER.FIELDS (X-CID)])") if rs.ok else None
+                rows2 = []
+                if rf2 is not None and rf2.ok:
+                    rows2 = [(dd.get("UID"), cid_of_fetch(dd), sorted(f for f in (canon_flag(x) for x in dd.get("FLAGS", [])) if f not in ("\\Recent", "unseen"))) for n, dd in rf2.fetches() if "UID" in dd]
+                if not ra.ok or not rs.ok or rf2 is None or not rf2.ok:
+                    bad("new-mailbox-after-recovery-unusable", f"APPEND {ra.status} SELECT {rs.status} FETCH {rf2.status if rf2 is not None else None}: {(ra if not ra.ok else rs).brief()}")
+                elif [(c, f) for _, c, f in rows2] != [("recprobe", [])]:
+                    bad("new-mailbox-after-recovery-not-empty-or-flagged", f"{rows2}")
+                res["checks"] = (res.get("checks") or 0) + 1
+            ri = await s.cmd(b"APPEND inbox {43+}\r\nFrom: p@q\r\nX-CID: recprobe2\r\n\r\nprobe body\r\n")
+            if not ri.ok and "inbox" in [k.lower() for k, v in state.items() if v is not None]:
+                bad("append-to-inbox-after-recovery-failed", ri.brief())
+        except Exception as e:  # noqa: BLE001
+            bad("post-recovery-probe-raised", repr(e))
         try:
             await rig.stop()
         except Exception as e:
